@@ -46,6 +46,32 @@ CLAIMED["C03"] = dict(
     technique="Kani/CBMC bounded model checking (SAT): pipeline fold vs reference fold over symbolic flags",
     design="4 (C03)")
 
+CLAIMED["C07"] = dict(
+    text="Bounded model checking of the compiled Helmert kernel (helmert_common, rotation_matrix): position-vector "
+         "matrix is the bitwise transpose of the coordinate-frame matrix in both modes; small-angle matrix is "
+         "I+skew(r) and pv(r)=cf(-r); exact matrix equals the documented product ROTZ*ROTY*ROTX for uninterpreted "
+         "sin/cos; the fourth coordinate is bit-identical and count=n for all f64 parameters/flags/tuples; every "
+         "tuple of a mixed-epoch set is transformed with T+(t-t_epoch)*DT, S+(t-t_epoch)*DS; inverse undoes forward; "
+         "the rotated static case uses ROT forward and ROT^T inverse.",
+    note=TRUST + "M-BTREE; S-ACC for ParsedParameters::boolean (flag table, real set filled as well); S-UF-SMALL for "
+         "f64::sin_cos (a fixed bit-mixing function with values in {-3..3}); float arithmetic equivalence over "
+         "D-SMALL/D-TINY. Outside: orthogonality/scale of distances (needs sin^2+cos^2=1), molodensky agreement, "
+         "alias/unit handling and t_obs folding in helmert::new (text front end).",
+    technique="Kani/CBMC bounded model checking (SAT) with uninterpreted libm and bounded value domains",
+    design="4 (C07)")
+CLAIMED["C11"] = dict(
+    text="Bounded model checking of the compiled adapt/axisswap/unitconvert code: for all valid from/to descriptor "
+         "pairs (symbolic permutation, signs, unit) the adapt kernels deliver out[i]=in[j]*F.mult[j]/T.mult[i], the "
+         "inverse is the reverse mapping, to=X equals inv from=X; axisswap realises every signed partial permutation "
+         "of 1..4 axes and its inverse bitwise for all f64; every unit table row resolves to its own factor; the "
+         "unitconvert kernels multiply/divide x,y,z and leave t untouched.",
+    note=TRUST + "M-BTREE. Tuple values for float arithmetic in D-SMALL, unit factors in {1,deg,gon} resp. {1..4}. "
+         "The angular factor is attached to the two leading positions of a descriptor, as the code and its tests do. "
+         "Outside: rejection of ill-formed order=/unit names at instantiation (text); the descriptor text parser is "
+         "thorough-tier only (may time out, then reported undecided).",
+    technique="Kani/CBMC bounded model checking (SAT) over symbolic descriptors and permutations",
+    design="4 (C11)")
+
 NA = {
     "C05": "differential identities over compositions of libm functions on the ellipsoid: no precise libm in CBMC, no "
            "theory of sin/atanh/exp in z3/cvc5; uninterpreted functions erase what the property is about (DESIGN 4/C05)",
